@@ -862,7 +862,7 @@ func toBool(val interface{}) (bool, error) {
 		switch x {
 		case "1", "true", "yes":
 			return true, nil
-		case "0", "false", "np":
+		case "0", "false", "no":
 			return false, nil
 		}
 	}
